@@ -538,20 +538,58 @@ macro "arch_fin1" : tactic => `(tactic|
         Int.natCast_sub, Int.natCast_add, Int.natCast_one, Int.toNat_natCast, Option.some.injEq, Prod.mk.injEq, and_true, true_and] at *
     | (exfalso; grind)))
 
-theorem gen_cnn_change_kernel_eq (kcalc : List Int → List Int → List Int → List Int → List Int) (c : CNN) (hw : c.WF)
+/-- the kernel `change_kernel_size` ends with (clamped candidate, then stepped down) -/
+def stepFin (c : CNN) (a : Args) : Nat :=
+  c.stepDown (min a.klayer (c.kernels.length - 1)) (c.kernels.getD (min a.klayer (c.kernels.length - 1)) 1)
+    (max 1 (min a.k (c.maxKernels.getD (min a.klayer (c.kernels.length - 1)) 1)) -
+      c.kernels.getD (min a.klayer (c.kernels.length - 1)) 1)
+    (max 1 (min a.k (c.maxKernels.getD (min a.klayer (c.kernels.length - 1)) 1)))
+
+macro "arch_fin2" h:ident : tactic => `(tactic|
+  (repeat' first
+    | with_reducible rfl
+    | omega
+    | (guard_target = False; simp_all <;> omega)
+    | split_ifs
+    | simp (disch := omega) only [pyGet_ofNats_lt1, pySet_ofNats_lt, min_pred_of_lt, min_pred_of_lt', Nat.min_eq_left,
+        Nat.max_eq_right, Nat.min_comm, $h:ident, Int.toNat_sub,
+        pyMin_cast, pyMax_cast, pyMax_one, pyMin_four,
+        Int.natCast_sub, Int.natCast_add, Int.natCast_one, Int.toNat_natCast, Option.some.injEq, Prod.mk.injEq, and_true, true_and] at *
+    | (exfalso; grind)))
+
+/-- the translated `while new > current and not self._later_layers_fit(…): new -= 1` is `CNN.stepDown` -/
+theorem gen_while_eq (kcalc : List Int → List Int → List Int → List Int → List Int) (kfit : MutableKernelSizes.State → Int → Int → List Int → List Int → Option Bool) (c : CNN)
+    (hfit : ∀ j knew : Nat, kfit { sizes := ofNats c.kernels } (j : Int) (knew : Int) (ofNats c.strides)
+      [(c.inC : Int), (c.inH : Int), (c.inW : Int)] = some (c.laterFit j knew)) (j cur : Nat) :
+    ∀ (n knew : Nat), MutableKernelSizes.change_kernel_size.while0 kcalc kfit { sizes := ofNats c.kernels } (cur : Int) (j : Int)
+        (ofNats c.strides) [(c.inC : Int), (c.inH : Int), (c.inW : Int)] n (knew : Int)
+      = some ((c.stepDown j cur n knew : Nat) : Int) := by
+  intro n
+  induction n with
+  | zero => intro knew; rfl
+  | succ n ih =>
+    intro knew
+    simp only [MutableKernelSizes.change_kernel_size.while0, CNN.stepDown, hfit, gt_iff_lt, Int.ofNat_lt]
+    by_cases h1 : cur < knew
+    · have e : (knew : Int) - 1 = ((knew - 1 : Nat) : Int) := by omega
+      cases h2 : c.laterFit j knew <;> simp [h1, h2, e, ih]
+    · simp [h1]
+
+theorem gen_cnn_change_kernel_eq (kcalc : List Int → List Int → List Int → List Int → List Int) (kfit : MutableKernelSizes.State → Int → Int → List Int → List Int → Option Bool) (c : CNN) (hw : c.WF)
     (hne : c.channels ≠ []) (out : List Int) (mm : List String)
     (hcalc : kcalc (ofNats c.channels) (ofNats c.kernels) (ofNats c.strides) [(c.inC : Int), (c.inH : Int), (c.inW : Int)]
-      = ofNats c.maxKernels) (a : Args) (x : Flags) :
-    EvolvableCNN.change_kernel kcalc (c.toGen out mm) (argOpt x.xk a.k) (argOpt x.xkl a.klayer)
+      = ofNats c.maxKernels)
+    (hfit : ∀ j knew : Nat, kfit { sizes := ofNats c.kernels } (j : Int) (knew : Int) (ofNats c.strides)
+      [(c.inC : Int), (c.inH : Int), (c.inW : Int)] = some (c.laterFit j knew)) (a : Args) (x : Flags) :
+    EvolvableCNN.change_kernel kcalc kfit (c.toGen out mm) (argOpt x.xk a.k) (argOpt x.xkl a.klayer)
         a.klayer a.k a.k a.stride a.layer a.n a.layer a.n =
       if c.channels.length > 1 then
         if (if x.xkl then true else decide (1 ≤ a.klayer) && decide (a.klayer < min 4 c.channels.length)) &&
            (x.xk || (decide (1 ≤ a.k) &&
               decide (a.k ≤ c.maxKernels.getD (if x.xkl then min a.klayer (c.kernels.length - 1) else a.klayer) 1))) then
-          some (({ c with kernels := c.kernels.set (min a.klayer (c.kernels.length - 1))
-                            (max 1 (min a.k (c.maxKernels.getD (min a.klayer (c.kernels.length - 1)) 1))) } : CNN).toGen out mm,
+          some (({ c with kernels := c.kernels.set (min a.klayer (c.kernels.length - 1)) (stepFin c a) } : CNN).toGen out mm,
                 [("hidden_layer", ((min a.klayer (c.kernels.length - 1) : Nat) : Int)),
-                 ("kernel_size", ((max 1 (min a.k (c.maxKernels.getD (min a.klayer (c.kernels.length - 1)) 1)) : Nat) : Int))],
+                 ("kernel_size", ((stepFin c a : Nat) : Int))],
                 "change_kernel")
         else none
       else if "add_layer" ∈ mm then
@@ -561,14 +599,15 @@ theorem gen_cnn_change_kernel_eq (kcalc : List Int → List Int → List Int →
   have hk : c.kernels.length = c.channels.length := hw.2.1
   have hmk : c.maxKernels.length = c.channels.length := CNN.maxKernels_length c hw
   have hsub : ((c.channels.length : Int) - 1) = ((c.channels.length - 1 : Nat) : Int) := by omega
+  have hwh := gen_while_eq kcalc kfit c hfit
   obtain ⟨xl, xn, xk, xkl⟩ := x
   cases xk <;> cases xkl <;>
     simp only [EvolvableCNN.change_kernel, MutableKernelSizes.change_kernel_size, MutableKernelSizes.calc_max_kernel_sizes,
       hcalc, argOpt, Bool.false_eq_true, if_false, if_true, Bool.true_or, Bool.false_or, Bool.and_true, Bool.true_and,
       Bool.and_eq_true, decide_eq_true_eq, hsub, pyMin_cast, pyMin_four, pyMax_one, ofNats_length, Int.ofNat_lt, gt_iff_lt,
-      CNN.toGen, ofNats_set, hk]
-  all_goals clear hcalc
-  all_goals arch_fin1
+      CNN.toGen, ofNats_set, hk, stepFin]
+  all_goals clear hcalc hfit
+  all_goals arch_fin2 hwh
 
 def CnnMethod.str : CnnMethod → String
   | .addLayer => "add_layer" | .removeLayer => "remove_layer" | .changeKernel => "change_kernel"
@@ -582,13 +621,14 @@ def CnnMethod.flags (me : CnnMethod) (x : Flags) : Flags :=
   | .changeKernel => { x with xl := false, xn := false }
   | _ => x
 
-def cnnCall (kcalc : List Int → List Int → List Int → List Int → List Int) (me : CnnMethod) (s : EvolvableCNN.State)
+def cnnCall (kcalc : List Int → List Int → List Int → List Int → List Int)
+    (kfit : MutableKernelSizes.State → Int → Int → List Int → List Int → Option Bool) (me : CnnMethod) (s : EvolvableCNN.State)
     (a : Args) (x : Flags) : Option (EvolvableCNN.State × Ret × String) :=
   match me with
   | .addLayer => EvolvableCNN.add_layer kcalc s a.k a.stride a.layer a.n
   | .removeLayer => EvolvableCNN.remove_layer s a.layer a.n
   | .changeKernel =>
-    EvolvableCNN.change_kernel kcalc s (argOpt x.xk a.k) (argOpt x.xkl a.klayer) a.klayer a.k a.k a.stride a.layer a.n
+    EvolvableCNN.change_kernel kcalc kfit s (argOpt x.xk a.k) (argOpt x.xkl a.klayer) a.klayer a.k a.k a.stride a.layer a.n
       a.layer a.n
   | .addChannel => EvolvableCNN.add_channel s (argOpt x.xl a.layer) (argOpt x.xn a.n) a.layer a.n
   | .removeChannel => EvolvableCNN.remove_channel s (argOpt x.xl a.layer) (argOpt x.xn a.n) a.layer a.n
@@ -602,15 +642,19 @@ def cnnRet (p : Policy) (lo : Bool) (c : CNN) (me : CnnMethod) (a : Args) : Ret 
   | _ => nodeRet "numb_new_channels" c.channels.length a
 
 /-- EvolvableCNN: every translated method = `CNN.step` under the clamping policy, the draws it accepts =
-    `Basic.drawsOK`; `cnn_output_size` and the external `calc_max_kernel_sizes` agree with the feature-map
-    arithmetic of the model for THIS state (hypotheses `hout`, `hcalc`) -/
-theorem gen_cnn_step_eq (kcalc : List Int → List Int → List Int → List Int → List Int) (p : Policy)
-    (hp : p.clampKernel = true) (c : CNN) (hw : c.WF)
+    `Basic.drawsOK`; `cnn_output_size`, the external `calc_max_kernel_sizes` and `_later_layers_fit` agree with the
+    feature-map arithmetic of the model for THIS state (hypotheses `hout`, `hcalc`, `hfit`; the last two are
+    discharged for the translated functions in `Proofs/KernelGenEq.lean`) -/
+theorem gen_cnn_step_eq (kcalc : List Int → List Int → List Int → List Int → List Int)
+    (kfit : MutableKernelSizes.State → Int → Int → List Int → List Int → Option Bool) (p : Policy)
+    (hp : p.clampKernel = true) (hp2 : p.fitLater = true) (c : CNN) (hw : c.WF)
     (hne : c.channels ≠ []) (out : List Int) (mm : List String)
     (hout : pySlice out (some (-2)) none = c.lastMap)
     (hcalc : kcalc (ofNats c.channels) (ofNats c.kernels) (ofNats c.strides) [(c.inC : Int), (c.inH : Int), (c.inW : Int)]
-      = ofNats c.maxKernels) (me : CnnMethod) (a : Args) (x : Flags) :
-    cnnCall kcalc me (c.toGen out mm) a x =
+      = ofNats c.maxKernels)
+    (hfit : ∀ j knew : Nat, kfit { sizes := ofNats c.kernels } (j : Int) (knew : Int) (ofNats c.strides)
+      [(c.inC : Int), (c.inH : Int), (c.inW : Int)] = some (c.laterFit j knew)) (me : CnnMethod) (a : Args) (x : Flags) :
+    cnnCall kcalc kfit me (c.toGen out mm) a x =
       if (Basic.cnn c).drawsOK p (decide ("add_layer" ∈ mm)) me.str a (me.flags x) then
         some ((c.step p (decide ("add_layer" ∈ mm)) me a).1.toGen out mm, cnnRet p (decide ("add_layer" ∈ mm)) c me a,
               (c.step p (decide ("add_layer" ∈ mm)) me a).2.name)
@@ -623,10 +667,10 @@ theorem gen_cnn_step_eq (kcalc : List Int → List Int → List Int → List Int
   · simp only [cnnCall, gen_cnn_remove_layer_eq c hne out mm, Basic.drawsOK, CnnMethod.str, cnnMethod?,
       CnnMethod.flags, CNN.step, cnnRet, Applied.name]
     split_ifs <;> first | rfl | (exfalso; simp_all; done)
-  · simp only [cnnCall, gen_cnn_change_kernel_eq kcalc c hw hne out mm hcalc,
+  · simp only [cnnCall, gen_cnn_change_kernel_eq kcalc kfit c hw hne out mm hcalc hfit,
       gen_cnn_add_layer_eq kcalc c hw hne out mm hout hcalc, gen_cnn_add_channel_draws c hne out mm,
-      Basic.drawsOK, CnnMethod.str, cnnMethod?,
-      CnnMethod.flags, CNN.step, CNN.addLayer, CNN.kernelTarget, cnnRet, Applied.name, hp, if_true, Bool.true_or, hk]
+      Basic.drawsOK, CnnMethod.str, cnnMethod?, stepFin,
+      CnnMethod.flags, CNN.step, CNN.addLayer, CNN.kernelTarget, cnnRet, Applied.name, hp, hp2, if_true, Bool.true_or, hk]
     by_cases h1 : c.channels.length > 1 <;> by_cases h2 : "add_layer" ∈ mm <;> by_cases h3 : c.addLayerGuard = true <;>
       simp only [h1, h2, h3, if_true, if_false, decide_true, decide_false, Bool.false_eq_true, nodeDrawOK] <;>
       split_ifs <;> (try simp only [*, if_true, if_false]) <;> first | rfl | (guard_target = False; simp_all; done)
@@ -740,6 +784,17 @@ theorem refCalc_spec (c : CNN) :
     refCalc (ofNats c.channels) (ofNats c.kernels) (ofNats c.strides) [(c.inC : Int), (c.inH : Int), (c.inW : Int)]
       = ofNats c.maxKernels := by
   simp only [refCalc, toNats_ofNats, CNN.maxKernels, CNN.maps]
+
+/-- the integer walk `_later_layers_fit` is modelled by (`Model/Arch.lean`: `fitsAux`) -/
+def refFit (s : MutableKernelSizes.State) (j knew : Int) (ss inp : List Int) : Option Bool :=
+  match inp with
+  | [_, h, w] => some (fitsAux h w ((toNats s.sizes).set j.toNat knew.toNat) (toNats ss))
+  | _ => none
+
+theorem refFit_spec (c : CNN) (j knew : Nat) :
+    refFit { sizes := ofNats c.kernels } (j : Int) (knew : Int) (ofNats c.strides)
+      [(c.inC : Int), (c.inH : Int), (c.inW : Int)] = some (c.laterFit j knew) := by
+  simp only [refFit, toNats_ofNats, CNN.laterFit, Int.toNat_natCast]
 
 /-- what `recreate_network` leaves in `cnn_output_size`, from the fields alone -/
 def refOut (s : EvolvableCNN.State) : List Int :=
